@@ -44,7 +44,7 @@ def gen_case(ctx, rng):
     if use_df:
         n = rng.randint(4, ctx.scale(20, 40))
         pts = [(dq(-1, 7), dq(-1, 7), dq(-2, 6)) for _ in range(n)]
-        if rng.random() < 0.5:
+        if rng.random() < (0.8 if kind == "cylinder" else 0.5):
             pts = [(float(rng.randint(0, 6)), float(rng.randint(0, 6)), float(rng.randint(0, 5))) for _ in range(n)]
         data = {"kind": "df", "pts": pts}
         nsens = n
@@ -65,6 +65,12 @@ def gen_case(ctx, rng):
     elif kind == "cylinder":
         p = {"center_x": dq(0, 6), "center_y": dq(0, 6), "center_z": dq(0, 5), "radius": rng.choice([dq(0, 4), 2.0, 3.0]),
              "height": rng.choice([dq(0, 6), 2.0, 4.0]), "axis": rng.choice(["X_axis", "Y_axis", "Z_axis", None])}
+        if rng.random() < 0.6:
+            # end caps through lattice points (closed shape: points exactly on a cap or on the mantle are inside)
+            for kk in ("center_x", "center_y", "center_z"):
+                p[kk] = float(rng.randint(0, 5))
+            p["height"] = float(rng.choice([2, 4, 6]))
+            p["radius"] = float(rng.choice([1, 2, 3, 5]))
     elif kind == "parabola":
         p = {"h": dq(0, 6), "k": dq(-1, 5), "a": rng.choice([dq(-2, 2), 1.0, 0.5, -0.25])}
     elif kind == "polygon":
